@@ -87,33 +87,45 @@ Fixpoint pow_loop (acc base : Z) (e : positive) : option Z :=
              end
   end.
 Definition u32_max := 2 ^ 32 - 1.
-(* u32::try_from(b).ok().and_then(|b| a.checked_pow(b)) *)
+(* ops.rs::pow before the fix: u32::try_from(b).ok().and_then(|b| a.checked_pow(b)) *)
 Definition checked_pow (a b : Z) : option Z :=
   if (b <? 0) || (u32_max <? b) then None
   else match b with
        | Zpos e => pow_loop 1 a e
        | _ => Some 1
        end.
+(* ops.rs::pow now: an exponent beyond u32 is kept through its parity for the bases -1, 0, 1
+     u32::try_from(b).ok().or_else(|| (b > 0 && (-1..=1).contains(&a)).then_some(2 + (b & 1) as u32)) *)
+Definition pow_exponent (a b : Z) : option Z :=
+  if (0 <=? b) && (b <=? u32_max) then Some b
+  else if (0 <? b) && (-1 <=? a) && (a <=? 1) then Some (2 + b mod 2)
+  else None.
+Definition pow_i128 (a b : Z) : option Z :=
+  match pow_exponent a b with
+  | Some (Zpos e) => pow_loop 1 a e
+  | Some _ => Some 1
+  | None => None
+  end.
 
 (* ops.rs::int_as_value *)
 Definition int_as_value (z : Z) : num := if in_i64 z then VInt I64 z else VInt I128 z.
 
-Definition int_op (rem_fixed : bool) (op : binop) (a b : Z) : option Z :=
+Definition int_op (fixed : bool) (op : binop) (a b : Z) : option Z :=
   match op with
   | Add => checked_add a b
   | Sub => checked_sub a b
   | Mul => checked_mul a b
   | FloorDiv => checked_div_euclid a b
-  | Rem => if rem_fixed then rem_i128 a b else checked_rem_euclid a b
-  | Pow => checked_pow a b
+  | Rem => if fixed then rem_i128 a b else checked_rem_euclid a b
+  | Pow => if fixed then pow_i128 a b else checked_pow a b
   end.
 
 (* ops.rs::{add, sub, mul, int_div, rem, pow} on two integer values.  A failed coercion is
    `impossible_op`, a failed checked operation is `failed_op`: both ErrorKind::InvalidOperation. *)
-Definition binop_with (co : num -> num -> option (Z * Z)) (rem_fixed : bool) (op : binop) (a b : num) : outcome num :=
+Definition binop_with (co : num -> num -> option (Z * Z)) (fixed : bool) (op : binop) (a b : num) : outcome num :=
   match co a b with
   | None => Err E_InvalidOperation
-  | Some (x, y) => match int_op rem_fixed op x y with
+  | Some (x, y) => match int_op fixed op x y with
                    | Some r => Ok (int_as_value r)
                    | None => Err E_InvalidOperation
                    end
